@@ -77,7 +77,7 @@ def roots_at(t, var):
     return any(n[0] == "attr" and n[1] == ("id", var, ()) for n in T.walk(t))
 
 
-def judge(ctx, t, var, cls):
+def judge(ctx, t, var, cls, do_shrink=True):
     ctx.count("evaluations")
     if roots_at(t, var):
         ctx.seen([to_text(t), var])
@@ -89,7 +89,7 @@ def judge(ctx, t, var, cls):
         return
     def still(t2):
         return one(t2, var)[0] == prob
-    small = shrink(t, still, max_tries=150)
+    small = shrink(t, still, max_tries=150) if do_shrink else t
     if small is not t and still(small):
         t = small
         prob, detail = one(t, var)
@@ -101,6 +101,23 @@ def judge(ctx, t, var, cls):
 
 def run(ctx):
     contracts.install_parse()
+    # (this lane runs BEFORE the visit tracer is installed: the tracer's own frames would
+    # exhaust the interpreter's recursion limit on paths the library itself handles)
+    # long paths (hundreds of segments): rooted at the variable, at a namespaced homonym of
+    # it, and at another field - inside a comparison, a call and a list
+    j = 0
+    for nseg in ctx.pick([120, 255, 300, 420], [64, 120, 249, 250, 251, 255, 300, 420, 480]):
+        for root in (("id", "x", ()), ("id", "x", ("ns",)), ("id", "y", ()), ("id", "x", ("my", "pkg"))):
+            j += 1
+            if not ctx.mine(j):
+                continue
+            p_ = root
+            for k in range(nseg):
+                p_ = ("attr", p_, "s%d" % (k % 7))
+            for wrap in (lambda q: ("cmp", "eq", q, T.I(1)), lambda q: T.call("tolower", q),
+                         lambda q: ("cmp", "in", T.ident("a"), T.lst(q, T.path("x", "k")))):
+                judge(ctx, wrap(p_), "x", "long-path", do_shrink=False)
+            ctx.cls("long-path:%d" % nseg)
     contracts.install_visit_trace()
     rng = ctx.rng("c17")
     o = fullgen.Opts()
